@@ -787,7 +787,12 @@ func (b *BootGuard) CreateIBBDigest(biosFilepath string) error {
 		copy(b.VData.BGbpm.SE[0].Digest.HashBuffer, d)
 	case bgheader.Version20:
 		for iterator, item := range b.VData.CBNTbpm.SE[0].DigestList.List {
-			d, err := b.GetIBBsDigest(data, item.HashAlg.String())
+			hashAlgo := item.HashAlg.String()
+			if item.HashAlg == cbnt.AlgSM3 {
+				// String() prints SM3 as "SM3_256", cbnt.GetAlgFromString knows it as "SM3".
+				hashAlgo = "SM3"
+			}
+			d, err := b.GetIBBsDigest(data, hashAlgo)
 			if err != nil {
 				return fmt.Errorf("unable to getIBBsDigest for %v: %w", item.HashAlg, err)
 			}
